@@ -70,13 +70,12 @@ def p_keys(s):
 
 
 def norm_key(p):
-    """python twin of crate::output::path::path_key for relative paths (fix D08): one leading ./ or .\\
-    stripped, '.' and '' -> '.', backslash -> slash"""
-    if p.startswith("./") or p.startswith(".\\"):
+    """python twin of crate::output::path::path_key for relative paths (fix D08): backslash -> slash,
+    every leading ./ stripped, '' and '.' spelled '.' (idempotent)"""
+    p = p.replace("\\", "/")
+    while p.startswith("./"):
         p = p[2:]
-    if p in ("", "."):
-        return "."
-    return p.replace("\\", "/")
+    return "." if p in ("", ".") else p
 
 
 def view(b):
@@ -176,7 +175,7 @@ class HashDir:
 # ------------------------------------------------------------------ library-level generators
 
 PATH_POOL = ["a.rs", "./a.rs", ".\\a.rs", "src/b.rs", "src\\b.rs", "./src/b.rs", ".\\src\\b.rs", "d", "./d", ".", "./", "./.", "d/e.rs", "h1.rs",
-             "./h1.rs", "sub/h2.rs", "./sub/h2.rs", "sub\\h2.rs", "", "été.rs", "a.rs/", "x y.rs", "d\\e.rs", "\U0001f600.rs", "nope/none.rs", "..", "../x.rs", ".a.rs"]
+             "./h1.rs", "././h1.rs", ".\\.\\a.rs", "sub/h2.rs", "./sub/h2.rs", "sub\\h2.rs", "", "été.rs", "a.rs/", "x y.rs", "d\\e.rs", "\U0001f600.rs", "nope/none.rs", "..", "../x.rs", ".a.rs"]
 assert all(stable_path(p) for p in PATH_POOL)
 KINDS = ["n"] * 6 + ["c"] * 3 + ["nS"] + ["sF"] * 4 + ["sD"] * 3 + ["sM"] * 2 + ["sP0", "sP1", "sP2", "sP3", "sP4", "sP5", "sP6"]
 STATUSES = ["F"] * 9 + ["G"] * 3 + ["W"] * 3 + ["P"] * 5
@@ -224,6 +223,22 @@ def lib_cases(ctx, hd, n):
     for _ in range(n):
         r = rng.random()
         rs = rand_results(rng, hd)
+        if rng.random() < 0.03:
+            # many entries at once (more than 20 stale / removed / written in one call)
+            m = rng.randint(25, 60)
+            big = ["g/f%02d.rs" % i for i in range(m)]
+            rs = [{"path": rng.choice(["", "./"]) + p, "kind": "n", "status": rng.choice("PPPWFG"), "code": rng.choice([3, 9, 12]), "limit": 10, "hash": ""} for p in big]
+            bigbl = {p: rand_entry(rng) for p in big if rng.random() < 0.9}
+            cmd = rng.choice(["ratchet", "tighten", "update"])
+            if cmd == "ratchet":
+                out.append({"cmd": "ratchet", "line": "ratchet\t%s\t%s" % (w_results(rs), w_bl(bigbl)), "rs": rs, "bl": bigbl})
+            elif cmd == "tighten":
+                ks = [p for p in bigbl if rng.random() < 0.7]
+                out.append({"cmd": "tighten", "line": "tighten\t%s\t%s" % (w_bl(bigbl), w_keys(ks)), "bl": bigbl, "ks": ks})
+            else:
+                m2 = rng.choice("acsn")
+                out.append({"cmd": "update", "line": "update\t%s\t%s\t%s" % (w_results(rs), m2, w_bl(bigbl)), "rs": rs, "mode": m2, "bl": bigbl})
+            continue
         if r < 0.15:
             fl = "".join(rng.choice("01") for _ in range(3))
             out.append({"cmd": "exit", "line": "exit\t%s\t%s" % (w_results(rs), fl), "rs": rs, "fl": fl})
@@ -255,7 +270,7 @@ def exit_spec(rs, wo, wae, rf):
 
 UFILES = ["./a.rs", "./b.rs", "./d1/c.rs", "./d1/d.rs", "./d2/e.rs"]
 UDIRS = {".": ["./a.rs", "./b.rs"], "./d1": ["./d1/c.rs", "./d1/d.rs"], "./d2": ["./d2/e.rs"]}
-SIZE = {"u": 3, "w": 9, "o": 12}
+SIZE = {"u": 3, "w": 9, "o": 12, "O": 15}   # under, warn, over, over with another size
 MAX_LINES = 10
 
 
@@ -607,7 +622,7 @@ CHECK_FLAGS_SMALL = [
 
 
 def op_alphabet():
-    ops = [{"op": "edit", "state": s} for s in ("oo---", "ou---", "o-oo-", "ooooo", "uu-u-")]
+    ops = [{"op": "edit", "state": s} for s in ("oo---", "ou---", "Oo---", "o-oo-", "ooooo", "uu-u-")]
     ops += [{"op": "update", "mode": m, "we": we} for m in "acsn" for we in (False, True)]
     ops += [{"op": "check", "flags": fl, "files": files} for fl, files in CHECK_FLAGS_SMALL]
     ops.append({"op": "respell"})
@@ -648,7 +663,7 @@ def rand_flags(rng):
 
 
 def rand_state(rng):
-    return "".join(rng.choice("-uwooo"[:]) if rng.random() < 0.8 else "-" for _ in UFILES)
+    return "".join(rng.choice("-uwoooO") if rng.random() < 0.8 else "-" for _ in UFILES)
 
 
 def rand_files(rng, state):
@@ -667,7 +682,7 @@ def rand_history(rng, maxlen=10):
             # local edit: change one file
             prev = [o for o in h if o["op"] == "edit"][-1]["state"]
             i = rng.randrange(len(UFILES))
-            h.append({"op": "edit", "state": prev[:i] + rng.choice("-uwo") + prev[i + 1:]})
+            h.append({"op": "edit", "state": prev[:i] + rng.choice("-uwoO") + prev[i + 1:]})
         elif r < 0.47:
             h.append({"op": "update", "mode": rng.choice("aacsn"), "we": rng.random() < 0.5})
         elif r < 0.53:
@@ -794,6 +809,10 @@ def oracles_c09(rec, prev, fixed):
             b = {k: e for k, e in d1m.items() if e[0] == other}
             # an entry of the other kind may only disappear because its key now holds an entry of the updated kind
             a2 = {k: e for k, e in a.items() if not (k in d1m and d1m[k][0] != other)}
+            # ... or because an auto ratchet of the same run found it evaluated and resolved
+            if loaded is not None and (fl.get("rc") or fl.get("rg")) == "a":
+                ev, still = evaluated_keys(rec), failing_keys(rec["rp"])
+                a2 = {k: e for k, e in a2.items() if not (k in ev and k not in still and k not in d1m)}
             if a2 != b:
                 klass = "K09_modes_drop_other_kind" if loaded is not None else "K09_update_unloaded"
                 out.append(("C09", klass, "modes_preserve_other_kind: %s entries %s -> %s under --update-baseline %s" % (other, sorted(a), sorted(b), UM[u])))
@@ -809,8 +828,23 @@ def oracles_c09(rec, prev, fixed):
                     klass = "K09_update_with_loaded"
                 elif loaded is None and u != "a" and prev["flags"].get("b"):
                     klass = "K09_update_unloaded"
-                out.append(("C09", klass, "update_idempotent: second --update-baseline %s (%s) changed the baseline %s -> %s" % (
-                    UM[u], "loaded" if loaded is not None else "not loaded", sorted(d0 or {}), sorted(d1 or {}))))
+                diff = sorted(k for k in set(d0 or {}) | set(d1 or {}) if (d0 or {}).get(k) != (d1 or {}).get(k))
+                out.append(("C09", klass, "update_idempotent: second --update-baseline %s (%s) changed the baseline: %s" % (
+                    UM[u], "loaded" if loaded is not None else "not loaded",
+                    "; ".join("%s: %s -> %s" % (k, (d0 or {}).get(k), (d1 or {}).get(k)) for k in diff[:3]))))
+        # every entry an update writes carries the figures of the current violation (lines + hash, kind + count)
+        if u in ("a", "c", "s"):
+            cur = {}
+            for r in rec["rsel"]:
+                if r["status"] == "F" and r["kind"] in BASELINABLE:
+                    ent = ("C", r["code"], r.get("hash", "")) if r["kind"] in ("n", "c") else ("S", "f" if r["kind"] == "sF" else "d", r["code"])
+                    if (u == "a") or (u == "c" and ent[0] == "C") or (u == "s" and ent[0] == "S"):
+                        cur[norm_key(r["path"])] = ent      # the last result for a key wins
+            if not is_ff(fl):
+                for k, ent in cur.items():
+                    if d1m.get(k) != ent:
+                        out.append(("C09", None, "update_records_current: entry %s is %s after --update-baseline %s, the current violation is %s" % (k, d1m.get(k), UM[u], ent)))
+                        break
         # history invariant, local form
         newkeys = set(d1m) - (set(d0m) if (u == "n" or True) else set())
         fk = failing_keys(rec["rsel"])
